@@ -57,6 +57,7 @@ type srcFile struct {
 }
 
 var overlayRe = regexp.MustCompile(`(?m)^//verif:overlay\s+(\S+)`)
+var whiteboxRe = regexp.MustCompile(`(?m)^//verif:whitebox`)
 var tierRe = regexp.MustCompile(`(?m)^//verif:tier\s+(\S+)`)
 
 // collect gathers harness sources for a property: static files under harness/<id>/ plus generated ones.
@@ -173,33 +174,61 @@ func cmdCheck(args []string) int {
 		return 2
 	}
 	defer os.RemoveAll(scratch)
-	overlay := map[string][]byte{}
-	pkgDirs := map[string]bool{}
 	zz, err := os.ReadFile(filepath.Join(verifDir, "rt/zzverif/zzverif.go"))
 	if err != nil {
 		fmt.Println(err)
 		return 2
 	}
-	overlay[filepath.Join(repoDir, "internal/zzverif/zzverif.go")] = zz
-	for i := range srcs {
-		s := &srcs[i]
-		overlay[filepath.Join(repoDir, s.Virtual)] = s.Data
-		pkgDirs["./"+filepath.Dir(s.Virtual)] = true
-		if s.Real == "" {
-			s.Real = filepath.Join(scratch, strings.ReplaceAll(s.Virtual, "/", "__"))
-			os.WriteFile(s.Real, s.Data, 0o644)
-		}
-	}
+	var overlay map[string][]byte
 	var patterns []string
-	for d := range pkgDirs {
-		patterns = append(patterns, d)
+	prepare := func() {
+		overlay = map[string][]byte{}
+		pkgDirs := map[string]bool{}
+		overlay[filepath.Join(repoDir, "internal/zzverif/zzverif.go")] = zz
+		for i := range srcs {
+			s := &srcs[i]
+			overlay[filepath.Join(repoDir, s.Virtual)] = s.Data
+			pkgDirs["./"+filepath.Dir(s.Virtual)] = true
+			if s.Real == "" {
+				s.Real = filepath.Join(scratch, strings.ReplaceAll(s.Virtual, "/", "__"))
+				os.WriteFile(s.Real, s.Data, 0o644)
+			}
+		}
+		patterns = nil
+		for d := range pkgDirs {
+			patterns = append(patterns, d)
+		}
+		sort.Strings(patterns)
 	}
-	sort.Strings(patterns)
+	prepare()
 	loadDir := repoDir
 	if sc != nil {
 		loadDir, overlay, patterns = sc.dir, nil, sc.patterns
 	}
+	var skippedWhitebox []string
 	eng, err := gosym.Load(loadDir, overlay, patterns)
+	if err != nil && sc == nil {
+		// White-box harnesses (marked //verif:whitebox) name unexported identifiers of the library. If the tree was
+		// refactored so that they no longer type-check, they are left out - stated in the output and the evidence -
+		// and the check goes on with the harnesses that use the exported API only.
+		var kept []srcFile
+		for _, s := range srcs {
+			if whiteboxRe.Match(s.Data) {
+				skippedWhitebox = append(skippedWhitebox, s.Virtual)
+			} else {
+				kept = append(kept, s)
+			}
+		}
+		if len(skippedWhitebox) > 0 && len(kept) > 0 {
+			firstErr := err
+			srcs = kept
+			prepare()
+			eng, err = gosym.Load(loadDir, overlay, patterns)
+			if err == nil {
+				fmt.Printf("NOTE: %d white-box harness file(s) do not type-check against the current tree and are skipped: %s\n  (%s)\n", len(skippedWhitebox), strings.Join(skippedWhitebox, ", "), strings.Join(strings.SplitN(firstErr.Error(), "\n", 3)[:min(2, len(strings.SplitN(firstErr.Error(), "\n", 3)))], " "))
+			}
+		}
+	}
 	if err != nil {
 		fmt.Println("INCONCLUSIVE: load/type-check failed (harness does not fit the current tree?):")
 		fmt.Println(err)
@@ -475,6 +504,7 @@ func cmdCheck(args []string) int {
 		"stubs_hit":                     keys(stubs),
 		"inconclusive":                  inconclusive,
 		"uncovered":                     hgen.UncoveredFor(id),
+		"whitebox_harness_files_skipped": skippedWhitebox,
 		"family_members_decided_by_other_checks": hgen.Elsewhere[id],
 		"known_findings_hit":            knownHits,
 		"task_switches":                 switches,
